@@ -20,8 +20,8 @@ class C18(Prop):
         "match enqueued before t+T is delivered; otherwise TimeoutError and the call returns by t+T+12 ms (kernel jiffy rounding of a re-armed SO_RCVTIMEO is conceded). non-trivial = at least one stray datagram "
         "was consumed by a pending call or the agent was silent; distinct = abstract trace + (k, match position) per call"
     )
-    quick_runs = 3000
-    thorough_runs = 50000
+    quick_runs = 40000
+    thorough_runs = 600000
 
     def families(self, tier):
         return [("sync", 3), ("async", 2)]
